@@ -295,6 +295,24 @@ def check_C07(ctx):
             ctx.violation("policy", "argv %r holds a value that does not convert (policy %d) but the invocation ended %r with trace %r and error line %r"
                           % (c["argv"], c["_pol"], a["outcome"], a["trace"], a["stderr"][:1]), case=c)
     ctx.stream("unconvertible value in every position", len(bad_cases))
+    # Q7 (modelled, outside the property's three-way split): the addressed command has no Action; its help is
+    # printed, nothing runs, and the policy is applied to a nil error. Compared with the model only.
+    q7 = []
+    for _ in range(ctx.scale(400, 4000)):
+        root, path, per_level, cmds = tree_invocation(ctx, rng.randint(0, 3), 3, reject_prob=0.2, conv=True)
+        for c in cmds:
+            if rng.random() < 0.5:
+                c["policy"] = rng.choice([0, 1, 2])
+        if root["policy"] is None and rng.random() < 0.7:
+            root["policy"] = rng.choice([0, 1, 2])
+        cmds[-1]["action"] = None
+        q7.append({"op": "run", "env": {}, "version": None, "root": root, "argv": flat_argv(path, per_level)})
+    number(q7, start=len(cases) + len(bad_cases))
+    res4 = correspond(ctx, q7, ["outcome", "trace", "stderr"], "addressed command without Action")
+    for c in q7:
+        a, _ = res4[c["id"]]
+        if any(t.startswith("A:") for t in a["trace"]):
+            ctx.violation("policy", "no Action is declared on the addressed command of %r, yet one ran: %r" % (c["argv"], a["trace"]), case=c)
     ctx.stream("trees x policies x rejections", 0, **{k: v for k, v in stats.items() if k != "by_policy"},
                policy_continue=stats["by_policy"][0], policy_exit=stats["by_policy"][1], policy_panic=stats["by_policy"][2])
     ctx.sample({"argv": cases[0]["argv"]})
